@@ -156,6 +156,32 @@ func c16CheckEq(c c16EqCase) h.Result {
 	if err1 != nil || err2 != nil {
 		return r.Class("malformed-case").Result()
 	}
+	// Loaded points have Z = 1 and T = XY.  The entry points take arbitrary
+	// projective representatives, and the table builders, the negation of C and
+	// the precomputed form all consume Z: in three quarters of the cases the
+	// operands are replaced by the same points in another representation,
+	// (P + Q) - Q with a case-dependent Q.
+	if rr := int(c.Sb[1]) % 4; rr != 0 {
+		qs, err := scalar.NewFromBytesModOrderWide(h.Expand(uint64(c.Sb[2])<<8|uint64(c.Sa[3]), 64))
+		if err != nil {
+			panic(err)
+		}
+		var Q EdwardsPoint
+		Q.MulBasepoint(ED25519_BASEPOINT_TABLE, qs)
+		want := [2][]byte{c16Enc(A), c16Enc(C)}
+		if rr&1 != 0 {
+			A.Add(A, &Q)
+			A.Sub(A, &Q)
+		}
+		if rr&2 != 0 {
+			C.Add(C, &Q)
+			C.Sub(C, &Q)
+		}
+		r.Class("operands:re-represented(Z!=1)")
+		if string(c16Enc(A)) != string(want[0]) || string(c16Enc(C)) != string(want[1]) {
+			return r.Fail("EdwardsPoint.Add/Sub:re-representation-changed-the-point", "A=%x C=%x", want[0], want[1]).Result()
+		}
+	}
 	encA, encC := c16Enc(A), c16Enc(C)
 
 	judge := func(name string, res *EdwardsPoint) {
@@ -206,6 +232,31 @@ func c16CheckEq(c c16EqCase) h.Result {
 	judge("EdwardsPoint.TripleScalarMulBasepointVartime(receiver-is-C)", al.TripleScalarMulBasepointVartime(a, A, b, al))
 	al = NewEdwardsPoint().Set(C)
 	judge("EdwardsPoint.ExpandedTripleScalarMulBasepointVartime(receiver-is-C)", al.ExpandedTripleScalarMulBasepointVartime(a, expA, b, al))
+	// 1b'. A and C are the SAME object: [a]A + [b']B - A is small-order exactly
+	// when (a-1)*alpha + b' = 0 mod L; b' is chosen so that this is the case's
+	// truth again (b' = delta - (a-1)*alpha).
+	{
+		b2v := ref.SSub(ref.SMod(dv), ref.SMul(ref.SSub(ref.SMod(av), big.NewInt(1)), alpha))
+		b2, err := scalar.NewFromBits(ref.ToLE(b2v, 32))
+		if err != nil {
+			panic(err)
+		}
+		same := func(name string, res *EdwardsPoint) {
+			r.Eval(1)
+			di := ref.Decode(c16Enc(res))
+			if !di.OK {
+				r.Fail(name+":result-not-on-curve", "a=%x A=C=%x b=%x", []byte(c.Sa), encA, ref.ToLE(b2v, 32))
+				return
+			}
+			if got, gotRef := res.IsSmallOrder(), ref.IsSmallOrder(di.P); got != truth || gotRef != truth {
+				r.Fail(name+":wrong-decision", "a=%x A=C=%x (one object) b=%x: equation %v, IsSmallOrder=%v ref=%v", []byte(c.Sa), encA, ref.ToLE(b2v, 32), truth, got, gotRef)
+			}
+		}
+		res = EdwardsPoint{}
+		same("EdwardsPoint.TripleScalarMulBasepointVartime(A-and-C-are-one-object)", res.TripleScalarMulBasepointVartime(a, A, b2, A))
+		res = EdwardsPoint{}
+		same("EdwardsPoint.ExpandedTripleScalarMulBasepointVartime(C-is-the-expanded-point)", res.ExpandedTripleScalarMulBasepointVartime(a, expA, b2, A))
+	}
 	// 1c. a by-value snapshot of the precomputed key keeps standing for A after
 	// the original has been re-set to another point
 	expS := NewExpandedEdwardsPoint(A)
